@@ -24,6 +24,15 @@ fn run(r: &mut Run) -> Result<(), MachineryError> {
         cx.set_input(&text);
         check_text(&text, cx);
     })?;
+    // whole words and line breaks (the symbol space spends its depth on separators)
+    let words = [WD1, WD2, WD3, WDH, WD5, NL];
+    let nw = t.pick(6, 8);
+    let space = Space { name: "C17/word-sequences".into(), menu: menu(&words), max_len: nw, desc: format!("<= {} whole words (each followed by a space) and line breaks x widths 0..=display width+2, MAX", nw) };
+    r.space(space, |seq, cx| {
+        let text = build(seq, &words);
+        cx.set_input(&text);
+        check_text(&text, cx);
+    })?;
     r.range("C17/all-characters-in-context", &format!("{}; each c in the texts \"cc c\", \"ac cb d\" x widths 0..=display width+2, MAX", scalar_desc(t)), scalar_space(t), move |i, cx| {
         let c = match scalar_at(t, i) {
             Some(c) => c,
